@@ -26,7 +26,7 @@ def no_probe_kinds(kind, req, model, impl):
 
 
 HEAP = ["heap"]
-SCAN = ["pparse", "tokenize", "rpn"]
+SCAN = ["pparse", "tokenize", "rpn", "apath"]
 
 PROPS = {
     "C01": dict(
